@@ -1,4 +1,5 @@
 import SqlgrepModel.Lemmas.AggSummaryTable
+import SqlgrepModel.Lemmas.AggPermSafe
 /-
 C15 — order-insensitive aggregates ignore line order and how the input is split.
 
@@ -15,11 +16,26 @@ the specification every cell is a function of its group's row list. Here:
 
 The hypotheses the property grants are stated, never hidden:
   * `SumsOrderFree`: INT (INTERVAL) partial sums stay within range in every order (otherwise one order may report an
-    overflow and another not); REAL sums are exact, i.e. independent of the order (the model's `F64.add` is opaque), and
-    `0.0 + y = y` (no `-0.0`);
+    overflow and another not). For REAL addends: `RealAddLaws` (`Lemmas/AggPerm.lean`) — the model's `F64.add` satisfies
+    `0.0 + y = y` and `x + y = y + x` on the addends and `(A + B) + C = A + (B + C)` on the partial sums of sub-multisets
+    of the addends. That the REAL sum does not depend on the order, and that the sums of two parts add up to the sum of
+    the whole, is PROVED from these laws (`real_sum_order_free_partial`, `concat_sum_adds_real_partial`);
   * `ValuesExact` for MIN/MAX/PERCENTILE: equal in the value order ⇒ identical (no `0.0` next to `-0.0`; the harness
     excludes them too), since of equal extremes the first is shown;
-  * group keys exact (implied by the specification answering: it declines REAL/array keys).
+  * group keys exact (implied by the specification answering: it declines array keys, `-0.0` and non-canonical NaN keys).
+
+**What is partial, and why.** `F64.add` is executed with Lean's `Float`, which the kernel treats as opaque: no equation
+between two different applications of `F64.add` to concrete REALs can be proved (not even `0.0 + 1.0 = 1.0`), and
+`native_decide` is forbidden. So `RealAddLaws rs` cannot be discharged for ANY concrete list with a REAL in it: for REAL
+SUM / AVG / STDDEV / VARIANCE the theorems below rest on `RealAddLaws` as an ASSUMPTION ABOUT IEEE-754 ADDITION (it holds
+for round-to-nearest addition whenever every sum of a sub-multiset of the addends is exactly representable and no addend
+is `-0.0` or NaN — e.g. integers of small magnitude stored as REAL; this is not proved here). The theorems that are only
+about REAL sums carry `_partial` in their names. Everything else — all aggregates over INT, INTERVAL, TEXT, BOOLEAN,
+TIMESTAMP arguments, COUNT, MIN/MAX/PERCENTILE over REAL — has no such assumption: the REAL clauses of `SumsOrderFree` are
+then about the empty list of addends and hold (`realAddLaws_nil`); `permSafe_of_small_ints` and the examples at the end
+discharge every hypothesis on concrete inputs. The laws themselves are consistent and the derivation is not vacuous: they
+are proved generically in the addition and instantiated below with exact addition. The implementation's behaviour on
+REAL sums is covered by the sampled check (`./check C15`: REAL columns, permutations and splits on the real binary).
 -/
 namespace Sqlgrep.Props.C15
 open Sqlgrep Sqlgrep.Value Sqlgrep.Spec.Agg
@@ -97,12 +113,29 @@ theorem concat_sum_adds_int (e : Expr) (v₁ v₂ : List Value) (is₁ is₂ : L
   simp only [aggregate, nonNull_append, h₁, h₂, ← List.map_append]
   rw [sumOf_ints _ hok, intSumValue_append]
 
-/-- **sums add** (REAL), under the property's proviso that the sums are exact: here, that adding the second part's sum
-to the first part's equals summing the whole -/
-theorem concat_sum_adds_real (rs₁ rs₂ : List Nat)
-    (hexact : realSum (rs₁ ++ rs₂) = F64.add (realSum rs₁) (realSum rs₂)) :
+/-- **sums add** (REAL) — partial: rests on `RealAddLaws (rs₁ ++ rs₂)`, an assumption about IEEE addition on the addends
+of both parts (see the header). From it: the sum of the whole is the first part's sum plus the second part's sum.
+FULL statement wanted: the same for all REAL addends whose sub-multiset sums are exactly representable; missing: a proof
+of `RealAddLaws` from that, which needs IEEE semantics of the opaque `Float` addition. -/
+theorem concat_sum_adds_real_partial (rs₁ rs₂ : List Nat) (hne : rs₂ ≠ []) (hlaws : RealAddLaws (rs₁ ++ rs₂)) :
     Value.real (realSum (rs₁ ++ rs₂)) = mergeSum (.real (realSum rs₁)) (.real (realSum rs₂)) := by
-  simp [mergeSum, hexact]
+  simp only [mergeSum]
+  rw [realSum_append_of_laws hlaws hne]
+
+/-- **REAL sums ignore the order** — partial: rests on `RealAddLaws rs` (zero neutral and commutativity on the addends,
+associativity on the partial sums at hand). The proof walks through the swaps that generate the permutation; in front
+of two swapped addends stands a partial sum of a sub-multiset, where the laws apply. FULL statement wanted and what is
+missing: as for `concat_sum_adds_real_partial`. -/
+theorem real_sum_order_free_partial {rs l : List Nat} (hlaws : RealAddLaws rs) (hp : l.Perm rs) : realSum l = realSum rs :=
+  realSum_perm_of_laws hlaws hp
+
+/-- the derivation itself, for ANY addition obeying the laws on the values at hand (so it can be instantiated) -/
+theorem sum_order_free_of_laws {add : Nat → Nat → Nat} {z0 : Nat} {rs l : List Nat} (hlaws : AddLaws add z0 rs) (hp : l.Perm rs) :
+    l.foldl add z0 = rs.foldl add z0 := fsum_perm_of_laws hlaws hp
+
+/-- and the split, for any addition obeying the laws -/
+theorem sum_split_of_laws {add : Nat → Nat → Nat} {z0 : Nat} {r₁ r₂ : List Nat} (hlaws : AddLaws add z0 (r₁ ++ r₂)) (hne : r₂ ≠ []) :
+    (r₁ ++ r₂).foldl add z0 = add (r₁.foldl add z0) (r₂.foldl add z0) := fsum_append_of_laws hlaws hne
 
 /-- **minima combine**: MIN of the whole is the lesser of the two parts' minima (the first part's on a tie) -/
 theorem concat_min_combines (x : Value) (xs : List Value) (y : Value) (ys : List Value) :
@@ -125,7 +158,7 @@ of the tables over `r₁` and `r₂` — the set of groups is the union (ascendi
 parts combines cell by cell (`mergeCell`: counts and sums add with NULL neutral, minima and maxima combine with NULL
 neutral, key columns stay), a group present in one part keeps its row. Tables are taken with the group key attached
 (`T.map (·.2)` are the tables themselves). `hint` = the SUM arguments are INT (for REAL the property's exactness
-proviso would be needed: see `concat_sum_adds_real`). -/
+proviso would be needed: see `concat_sum_adds_real_partial`). -/
 theorem agg_concat_merge {O : Oracles} {q : AggStmt} (hm : MergeableStmt q) (r₁ r₂ : List Env) {t t₁ t₂ : List (List Value)}
     (h : table O q (r₁ ++ r₂) = some t) (h₁ : table O q r₁ = some t₁) (h₂ : table O q r₂ = some t₂)
     (hint : ∀ k₁ k₂, keyedRows O q r₁ = some k₁ → keyedRows O q r₂ = some k₂ →
@@ -141,8 +174,9 @@ and `r₁ ++ r₂` are `tableOfSummaries` of keyed summaries `S₁`, `S₂` and 
 union; in a group present in both parts (`combine`) counts add, the sets of distinct values unite, sums and sums of
 squares add with NULL neutral (AVG / STDDEV / VARIANCE through their (sum, sum of squares, count) components), minima and
 maxima combine, conjunctions / disjunctions combine, PERCENTILE's sorted multisets merge; a group present in one part
-keeps its summaries. Provisos (`SplitSafe`, per group): REAL partial sums and sums of squares add exactly (the property's
-"sums exactly representable"); PERCENTILE values are exact (no `0.0` next to `-0.0`). `StmtWF` holds for every lowered
+keeps its summaries. Provisos (`SplitSafe`, per group): for REAL addends (and their squares) `RealAddLaws` on the addends
+of both parts together — an assumption about IEEE addition, see the header; vacuous for non-REAL sums; PERCENTILE values
+are exact (no `0.0` next to `-0.0`). `StmtWF` holds for every lowered
 statement (`Props.Pipeline.lowered_aggregate_is_wellformed`). -/
 theorem agg_concat_merge_all {O : Oracles} {q : AggStmt} (hwf : StmtWF q)
     (hOI : ∀ kind ∈ slotKinds q, orderInsensitive kind = true) (r₁ r₂ : List Env) {t t₁ t₂ : List (List Value)}
@@ -209,6 +243,66 @@ example (O : Oracles) (keyed : List (List Value × Env)) : PermSafe O exCount ke
   refine ⟨?_, ?_⟩
   · intro kind hk; simp [slotKinds, exCount] at hk; subst hk; rfl
   · intro k kind vs hk _; simp [slotKinds, exCount] at hk; subst hk; exact ⟨by simp [usesOrder], by simp [usesSums]⟩
+
+/-- `SELECT k, COUNT(*), SUM(v), AVG(v), VARIANCE(v), MIN(v), MAX(v) FROM t GROUP BY k` -/
+def exSumMin : AggStmt :=
+  { items := [{ name := "k", kind := .groupKey (.column "k") "k", transform := none },
+              { name := "count1", kind := .count none false, transform := none },
+              { name := "sum2", kind := .sum (.column "v"), transform := none },
+              { name := "avg3", kind := .avg (.column "v"), transform := none },
+              { name := "variance4", kind := .stddev (.column "v") true, transform := none },
+              { name := "min5", kind := .min (.column "v"), transform := none },
+              { name := "max6", kind := .max (.column "v"), transform := none }],
+    filter := none, groupBy := some [(.column "k", "k")], having := none, havingAggs := [], havingKeys := [],
+    havingVisit := [], limit := none, distinct := false }
+/-- the same select list with `PERCENTILE(v, 0.5)` (bit pattern of 0.5) -/
+def exPct : AggStmt :=
+  { exSumMin with items := exSumMin.items ++ [{ name := "percentile7", kind := .percentile (.column "v") 0x3fe0000000000000, transform := none }] }
+def rowKV (k : Nat) (v : Value) : Env := { table := [("k", .text [k]), ("v", v)] }
+/-- rows (a, 3), (b, 7), (a, NULL), (a, -1), (b, 2) -/
+def exRows : List Env := [rowKV 97 (.int 3), rowKV 98 (.int 7), rowKV 97 .null, rowKV 97 (.int (-1)), rowKV 98 (.int 2)]
+def exKeyed : List (List Value × Env) :=
+  [([.text [97]], rowKV 97 (.int 3)), ([.text [98]], rowKV 98 (.int 7)), ([.text [97]], rowKV 97 .null),
+   ([.text [97]], rowKV 97 (.int (-1))), ([.text [98]], rowKV 98 (.int 2))]
+
+example : keyedRows {} exSumMin exRows = some exKeyed := rfl
+example : keyedRows {} exPct exRows = some exKeyed := rfl
+
+/-- **`PermSafe` holds for a statement with SUM, AVG, VARIANCE, MIN and MAX** on these rows (every hypothesis of
+`agg_perm_invariant` discharged: INT arguments, no partial sum near the 64-bit range in any order) -/
+example : PermSafe {} exSumMin exKeyed :=
+  permSafe_of_small_ints (by decide) (by decide) (by decide)
+/-- … and for the statement with PERCENTILE as well -/
+example : PermSafe {} exPct exKeyed :=
+  permSafe_of_small_ints (by decide) (by decide) (by decide)
+/-- so the conclusion of `agg_perm_invariant` applies to every permutation of these rows (VARIANCE and PERCENTILE go
+through `F64` operations the kernel cannot evaluate; the INT columns of the table are evaluated in the next example) -/
+example (rows₂ : List Env) (h : exRows.Perm rows₂) : table {} exPct exRows = table {} exPct rows₂ :=
+  agg_perm_invariant h (fun keyed hk => by
+    have : keyed = exKeyed := by
+      have h0 : keyedRows {} exPct exRows = some exKeyed := rfl
+      rw [h0] at hk; exact (Option.some.inj hk).symm
+    subst this
+    exact permSafe_of_small_ints (by decide) (by decide) (by decide))
+/-- the table of `SELECT k, COUNT(*), SUM(v), MIN(v), MAX(v) … GROUP BY k` on these rows and on their reversal, evaluated -/
+def exSumMinInt : AggStmt :=
+  { exSumMin with items := [exSumMin.items[0]!, exSumMin.items[1]!, exSumMin.items[2]!, exSumMin.items[5]!, exSumMin.items[6]!] }
+example : table {} exSumMinInt exRows = some [[.text [97], .int 3, .int 2, .int (-1), .int 3], [.text [98], .int 2, .int 9, .int 2, .int 7]] ∧
+    table {} exSumMinInt exRows.reverse = table {} exSumMinInt exRows := ⟨rfl, rfl⟩
+
+/-- the hypotheses of the input split (`SplitSafe` of `agg_concat_merge_all`) hold for INT arguments -/
+example (v₁ v₂ : List Value) (h₁ : ∀ v ∈ nonNull v₁, ∃ i, v = .int i) (h₂ : ∀ v ∈ nonNull v₂, ∃ i, v = .int i) :
+    SplitExact (nonNull v₁) (nonNull v₂) := splitExact_of_ints h₁ h₂
+
+/-- **the laws are consistent and the derivation is not vacuous**: exact addition obeys `AddLaws` on every list of addends
+(`F64.add` itself cannot be instantiated: it is opaque to the kernel — see the header) -/
+example (rs : List Nat) : AddLaws (· + ·) 0 rs :=
+  ⟨fun y _ => Nat.zero_add y, fun x _ y _ => Nat.add_comm x y, fun _ _ _ _ _ _ => Nat.add_assoc _ _ _⟩
+example : [3, 1, 2].foldl (· + ·) 0 = [1, 2, 3].foldl (· + ·) 0 :=
+  sum_order_free_of_laws (add := (· + ·))
+    ⟨fun y _ => Nat.zero_add y, fun x _ y _ => Nat.add_comm x y, fun _ _ _ _ _ _ => Nat.add_assoc _ _ _⟩ (by decide)
+/-- the REAL laws hold when there is nothing to add — the only instance the kernel can check for `F64.add` -/
+example : RealAddLaws [] := realAddLaws_nil
 
 /-- `SELECT COUNT(*), SUM(v), MIN(v) FROM t` is a `MergeableStmt`, and the combination of the rows `[2, 4, 1]` and `[1, 5, 5]`
 of two parts is `[3, 9, 1]` -/
